@@ -25,8 +25,8 @@ func main() {
 		positions = specgen.Positions
 	}
 	type config struct {
-		name string
-		args []string
+		name   string
+		args   []string
 		strict bool
 	}
 	configs := []config{{"default", nil, false}}
@@ -78,7 +78,7 @@ func main() {
 	nB := c.Pick(60, 600)
 	var groupsB []modelrig.Group
 	for k := 0; k < nB && len(pool) > 0; k++ {
-		groupsB = append(groupsB, composite(k, pool, rng))
+		groupsB = append(groupsB, modelrig.Composite(k, pool, rng, wraps))
 	}
 	if len(groupsB) > 0 {
 		results, failures, units := modelrig.Exercise(c, swagger, groupsB, nil, 60)
@@ -100,88 +100,6 @@ func main() {
 }
 
 var wraps = []string{"req", "opt", "items"}
-
-// composite builds one object definition of 3–8 properties, each an atom wrapped
-// as required / optional property, array items or map values.
-func composite(k int, pool []*specgen.SchemaAtom, rng *rand.Rand) modelrig.Group {
-	name := fmt.Sprintf("VfComp%03d", k)
-	props := J{}
-	var required []any
-	defs := map[string]J{}
-	np := 3 + rng.Intn(6)
-	var ids []string
-	for i := 0; i < np; i++ {
-		a := pool[rng.Intn(len(pool))]
-		w := wraps[rng.Intn(len(wraps))]
-		p, d := specgen.Place(a, "def") // schema with hints, aux renamed under a unique prefix
-		prefix := fmt.Sprintf("%sP%d", name, i)
-		s := renameAll(p.Schema, d, p.DefName, prefix, defs)
-		pn := fmt.Sprintf("p%d", i)
-		switch w {
-		case "req":
-			props[pn] = s
-			required = append(required, pn)
-		case "opt":
-			props[pn] = s
-		case "items":
-			props[pn] = J{"type": "array", "items": s}
-		case "map":
-			props[pn] = J{"type": "object", "additionalProperties": s}
-		}
-		props[pn].(J)["x-vf-atom"] = a.ID + "@B." + w
-		ids = append(ids, a.ID+"@"+w)
-	}
-	def := J{"type": "object", "properties": props}
-	if len(required) > 0 {
-		def["required"] = required
-	}
-	defs[name] = def
-	atom := &specgen.SchemaAtom{ID: "composite[" + strings.Join(ids, ",") + "]"}
-	return modelrig.Group{Placed: specgen.Placed{Atom: atom, Pos: "B", DefName: name, Schema: def}, Defs: defs}
-}
-
-// renameAll copies the placed atom's definitions under a new prefix and returns the schema.
-func renameAll(schema J, defs map[string]J, defName, prefix string, into map[string]J) J {
-	ren := map[string]string{}
-	for k := range defs {
-		if k != defName {
-			ren[k] = prefix + k
-		}
-	}
-	var fix func(v any) any
-	fix = func(v any) any {
-		switch t := v.(type) {
-		case map[string]any:
-			o := J{}
-			for k, x := range t {
-				if k == "$ref" {
-					if r, ok := x.(string); ok {
-						nm := strings.TrimPrefix(r, "#/definitions/")
-						if nn, ok := ren[nm]; ok {
-							o[k] = "#/definitions/" + nn
-							continue
-						}
-					}
-				}
-				o[k] = fix(x)
-			}
-			return o
-		case []any:
-			o := make([]any, len(t))
-			for i, x := range t {
-				o[i] = fix(x)
-			}
-			return o
-		}
-		return v
-	}
-	for k, v := range defs {
-		if k != defName {
-			into[ren[k]] = fix(v).(J)
-		}
-	}
-	return fix(schema).(J)
-}
 
 var oracles sync.Map
 
